@@ -89,6 +89,17 @@ def check_case(case) -> Obs:
         obs.cls("opt")
         try:
             res = optimize_partition_by(src, dst, mode, "lbl")
+            # the label is only used for messages: without one (None, or not given) the answer is the same
+            if mode in ("auto", "source", "destination"):
+                for alt, call in (("label=None", lambda: optimize_partition_by(src, dst, mode, None)), ("no label", lambda: optimize_partition_by(src, dst, mode))):
+                    try:
+                        res_alt = call()
+                    except Exception as e:  # noqa
+                        obs.bad("C18/opt-valid-rejected", f"optimize_partition_by({case['src']},{case['dst']},{mode!r}) with {alt} raised {type(e).__name__}: {e}")
+                        return obs
+                    if res_alt != res:
+                        obs.bad("C18/opt-choice", f"optimize_partition_by({case['src']},{case['dst']},{mode!r}) with {alt} = {res_alt!r}, with a label {res!r}")
+                        return obs
         except ValueError:
             if mode in ("auto", "source", "destination"):
                 obs.bad("C18/opt-valid-rejected", f"optimize_partition_by({case['src']},{case['dst']},{mode!r}) raised ValueError")
